@@ -12,6 +12,21 @@ CLAIMED = {
     },
 }
 
+CLAIMED["C05"] = {
+    "category": "other",
+    "text": "For all ten dynamically sized kinds of both crates and every header instantiation of the generic structure: BASE_SIZE = compiler's tail offset = specified fixed part; dst_len's return term is (size - BASE_SIZE)/elem; the lower-bound and divisibility facts are established on every normal return by guards whose failing edge diverges (or, for the header-sized base, by the header's own assertion / the wrap-rejecting constructor guard); the accessor exposes exactly the tail field. Holds for all 2^32 declared sizes at once because it is a statement about terms, not samples.",
+    "design_ref": "DESIGN.md §4 C05",
+    "note": TB + "; Rust DST semantics (a reference with metadata n covers tail offset + n elements)",
+    "technique": "layout tables from rustc + value terms and dominating-edge guard facts over MIR (TERMS/GUARD), linear entailment",
+}
+CLAIMED["C14"] = {
+    "category": "other",
+    "text": "Early-exit chains (guards in dominance order with their error constructors) of BytesRef::try_from, ref_from_bytes and ref_from_slice for every header type; the linear fact `header size + metadata <= slice length` at the single fat-pointer creation site, with the metadata being the compared term and the address the slice's; who-may-construct BytesRef; rounding kernel in remainder normal form (least multiple of 8 >= x); layouts. Complete for the statement under the listed std contracts.",
+    "design_ref": "DESIGN.md §4 C14",
+    "note": TB,
+    "technique": "early-exit chain extraction (dominators) + guard-fact entailment at the unsafe site + who-may-construct census + remainder normal form",
+}
+
 PENDING = "check not yet built in this session (machinery under construction; see DESIGN.md §9 build order) - not claimed until its premises run, pass on the repaired tree and fire on seeded breaks"
 NOT_APPLICABLE = {("C%02d" % i): PENDING for i in range(1, 21)}
 
